@@ -88,7 +88,8 @@ CLAIMS = {
     "C01": ("Layered theorems (coq/Properties/C01.v), no hypotheses on libm or inputs: (1) bytes to lines - the reader never "
             "panics and has enough fuel for every stream and schedule (C08); an Err is always a failure event of the reader "
             "schedule (T01e: C01_T01e_error_only_from_reader) and a faultless reader never fails "
-            "(C01_faultless_reader_never_fails; D6 was found by T01e and repaired, fe92d4b); (2) lines to value - every parser of every decoder never panics, the seven simpler decoders "
+            "(C01_faultless_reader_never_fails; D6 was found by T01e and repaired, fe92d4b); from_bytes yields exactly the "
+            "lines the bytes determine, also for buffers of 1-2 bytes (C01_from_bytes_lines; D4 repaired, af28242); (2) lines to value - every parser of every decoder never panics, the seven simpler decoders "
             "and TimingPoints are total outright; (3) the curve NEVER panics for any libm record, fuel, control-point list "
             "(NaN/inf included) and length (stack invariant of the Bezier subdivision, slices, rotate/pop, calculate_length "
             "indices), at both buffer levels; hence decode_hit_objects / decode_beatmap and the byte-level from_bytes yield "
@@ -118,7 +119,8 @@ CLAIMS = {
             "scalar string; unpaired surrogates become U+FFFD; the hand-written lossy loop of encoding.rs equals a one-pass "
             "lossy_spec automaton for ALL byte lists (never out of fuel; the unchecked prefix always validates) and is "
             "local to the line (lossy (a++[LF]++b) = lossy a ++ [LF] ++ lossy b); the four encodings of a text give the "
-            "same lines for every faultless schedule outside the recorded classes D4/D5 (each refuted with a witness); a "
+            "same lines for EVERY faultless schedule and every stream length outside the recorded class D5 (refuted with a "
+            "witness; D4 and D6 repaired); a "
             "clean stream never fails in any encoding (C10_clean_stream_never_fails) and a UTF-16LE stream cut inside a "
             "line feed decodes as the stream with the complete line feed plus one blank line (C10_odd_tail_decodes; D6 "
             "repaired, fe92d4b). "
@@ -127,20 +129,25 @@ CLAIMS = {
             "from_utf8_lossy / from_utf16_lossy, every scalar value as Title content (thorough).",
             "§6 C10"),
     "C08": ("Unbounded theorems (coq/Properties/C08.v, axiom-free): the BufRead contract as an explicit schedule of chunks, "
-            "Interrupted and failures; read_until / read_exact / read_bom / read_line transcribed; for any two faultless "
-            "schedules with a good start (first non-empty chunk >= 3 bytes or the whole stream) read_all_lines gives the "
-            "same lines = decode_stream bytes; Interrupted is transparent for all schedules; a faultless delivery never "
-            "yields an Err for any chunking, the D4 class included, and an Err is a Fail event of the schedule "
-            "(C08_faultless_never_fails, C08_error_only_from_schedule); never a panic, fuel sufficient. The unrestricted statement is refuted with a witness (D4: read_bom discards chunks shorter than "
-            "3 bytes). Tie to the code: a schedule-driven BufRead under LineDecoder, fixed chunk sizes 1..64, random "
-            "schedules, Interrupted placements, UTF-16LE streams cut inside a line feed at every chunk size; oracle: schedule "
+            "Interrupted and failures; read_until / read_bom / read_line and std's Chain (fill_buf / consume / read_until) "
+            "transcribed; for ANY two faultless schedules of the same bytes (every chunking down to single bytes, first "
+            "chunks of 1-2 bytes, a BOM split over several chunks, every BufReader capacity) and every reader state "
+            "read_all_lines gives the same lines = decode_stream bytes (C08_schedule_independent, "
+            "C08_function_of_bytes[_any_state], C08_bufreader_any_capacity); read_bom collects the first three bytes "
+            "however they are chunked; Interrupted is transparent for all schedules; a faultless delivery never "
+            "yields an Err for any chunking, and an Err is a Fail event of the schedule "
+            "(C08_faultless_never_fails, C08_error_only_from_schedule); never a panic, fuel sufficient. D4 (read_bom discarded chunks shorter than 3 bytes) was found by this check "
+            "and repaired (af28242); the formerly failing deliveries are Examples. Tie to the code: a schedule-driven BufRead under LineDecoder, fixed chunk sizes 1..64, random "
+            "schedules, Interrupted placements, every stream of 0..3 bytes byte by byte, a BOM split at every position, "
+            "line-level comparison with the one-chunk delivery, UTF-16LE streams cut inside a line feed at every chunk size; oracle: schedule "
             "reader / BufReader capacities 1..16 / from_str / from_path on a regular file and on a pipe / dribbling Read "
             "all equal from_bytes.",
             "§6 C08"),
     "C09": ("Unbounded theorems (coq/Properties/C09.v, axiom-free): a hard failure reached by the reader schedule is returned "
             "(never Done), since the driver reads to EOF; no error is made up (C09_error_only_from_reader); the extra-byte "
             "read after a UTF-16LE line feed returns a failure, retries Interrupted and treats EOF as end of line "
-            "(C09_extra_byte_*); Interrupted transparent; writer side for an arbitrary chunk list: "
+            "(C09_extra_byte_*); a failure while read_bom is still collecting its bytes is returned and Interrupted there is "
+            "retried (C09_bom_*); Interrupted transparent; writer side for an arbitrary chunk list: "
             "any failure or Ok(0) before everything is accepted yields the error (WriteZero for Ok(0)), no write is issued "
             "after the first failure, the accepted bytes are a prefix, short writes and Interrupted are retried, flush "
             "failure returned, never a panic. Tie to the code: error of each of 5 kinds at every byte offset of bundled "
@@ -154,9 +161,15 @@ CLAIMS = {
             "ended before the object, and with chronologically ordered breaks forces the first object after a break; "
             "sliders get velocity = 100*SM/(beat_len*clamp(100/sv)/100) literally, duration = spans*dist/velocity, node "
             "and object samples from the sample point 5 ms after each node / the end by the SamplePoint::apply rules; "
-            "constants pinned. Shift invariance (T15d): REFUTED for non-integer times with a Coq witness (finding D20: "
-            "fl(parse t + 5) vs parse(t + 5)); for integer times it is not proved, only tested by the oracle (integer and "
-            "fractional-time maps, shifts in [-1e6,1e6]). Tie to the code: implementation-side oracle written from the property text (stable order incl. "
+            "constants pinned. Shift invariance (T15d): proved for whole-millisecond times (|t|, |t+k| < 2^52, `-0` excluded): "
+            "the shift is exact, all comparisons, the number parser on whole literals in any spelling, the four look-ups "
+            "and ControlPoints::add commute with it; C15_shift_invariance_integer_times: processing of circles, spinners "
+            "and holds commutes with the shift for any break order and mode, error outcomes included, and changes nothing "
+            "but times (C15_shift_changes_only_times). Sliders: proved when no look-up time start + o + 5 lies within 2^-g "
+            "ms below a sample point (C15_shift_invariance_sliders_partial); REFUTED otherwise with a witness confirmed on "
+            "the crate (new finding D29: duration 2399.9999999999995 - inherent to binary floating point), likewise for "
+            "fractional times (D20) and the time `-0` (relative of D8). Not covered: non-finite slider durations (D11 "
+            "class), the text-level glue composed into one theorem. Tie to the code: implementation-side oracle written from the property text (stable order incl. "
             ">20 ties, breaks, closed-form velocity/duration, sample defaults, shifts in [-1e6,1e6]); correspondence of the "
             "decoder models on the same files.",
             "§6 C15"),
@@ -188,9 +201,15 @@ CLAIMS = {
             "Catmull-Rom polynomial interpolating v2 and v3; de Casteljau: the left/right control polygons evaluate to the "
             "parent curve at t/2 and (1+t)/2 (T17b, reals, on the model's subdivision); the arc centre is equidistant from "
             "the three points, every emitted point lies on the circle and the end points are the first and last vertices "
-            "under the stated libm hypotheses (T17d); tolerances pinned. NOT proved: the Hausdorff bound itself (T17e) - "
-            "the oracle measures the two-sided distance to "
-            "exactly evaluated curves under a bound derived from the tolerances. Recorded deviation D19 (ill-conditioned "
+            "under the stated libm hypotheses (T17d); tolerances pinned. T17e, the two-sided Hausdorff bounds, proved over the "
+            "reals on definitions shared with the model (model = IEEE instance by reflexivity): arc 4 x 0.1 = 0.4 "
+            "(C17_arc_hausdorff; the nominal 0.1 is REFUTED, C17_arc_tolerance_0_1_refuted: the code emits one chord fewer "
+            "than its tolerance requires - the property only says `derived from the tolerances`); Bezier n(2n-1)/8 x 0.5 for "
+            "the WHOLE subdivision loop (C17_bezier_hausdorff, via the convex-hull property and a discrete maximum "
+            "principle on a flat piece); Catmull vertices exactly on the curve, chords within |P''|/8/2500 <= 3L/10000 "
+            "(second derivative by Coquelicot); osu! simplification within 6 px both ways; linear 0. NOT proved: the "
+            "binary32/binary64 rounding and libm error between computed vertices and the real instance (measured by the "
+            "oracle with explicit slack on top of each proved bound), the direction choice of perfect curves. Recorded deviation D19 (ill-conditioned "
             "three-point arcs). Tie to the code: bit-exact correspondence of computed paths.",
             "§6 C17"),
     "C18": ("Unbounded theorems (coq/Properties/C18.v): the buffer-reusing computation (explicit CurveBuffers, in-place Bezier "
@@ -221,8 +240,14 @@ CLAIMS = {
             "(buffer independence, abandoned iterators), both integer-overflow modes and any fuel; structure, span indices, "
             "closed forms of head / repeats / legacy last tick / tail; zero tick distance => no ticks, every repeat; exact "
             "characterisation of when the constructor panics (recorded finding D18: total_dist < 0); in exact arithmetic "
-            "ticks lie at multiples of the tick distance, stop before len - 10*velocity, are chronological. PARTIAL for "
-            "IEEE: ticks are the running sums and weakly chronological; the rounding bound is not proved. Tie to the code: "
+            "ticks lie at multiples of the tick distance, stop before len - 10*velocity, are chronological. Binary64 "
+            "(T20c): tick j is the j-fold running sum, finite, in (0, len], within j*ulp(len)/2 of (j+1)*tick_dist; its "
+            "progress within j*ulp(len)/(2len)+2^-53 and its time (forward and mirrored) within an explicit bound of the "
+            "closed form; the loop guards read as real inequalities and the loop is maximal; each span incl. its repeat is "
+            "weakly chronological (strict order is false under rounding); span start / repeat / tail / last tick within "
+            "explicit ulp bounds of start+k*dur and max(start+n*dur/2, start+n*dur-36); ticks of every span carry the "
+            "progress values of span 0 bit for bit. Time bounds assume the span end does not overflow and the span duration "
+            "is finite and >= 0. The oracle tolerances equal the proved bounds. Tie to the code: "
             "bit-exact event streams for grids, random sliders and multi-iterator histories sharing one buffer.",
             "§6 C20"),
     "C11": ("Unbounded theorems (coq/Properties/C11.v): each of the six section parsers equals a table-driven "
@@ -239,10 +264,15 @@ CLAIMS = {
             "§6 C11"),
     "C14": ("Unbounded theorems (coq/Properties/C14.v): parse_hit_objects equals a declarative line_spec for all states and "
             "lines and never panics (index loops of convert_points/convert_path_str modelled with checked arithmetic); "
-            "position truncation, kind precedence, combo offset, forced new combo, repeat cap 9000 and node count, length "
+            "position truncation, kind precedence, combo offset, forced new combo by the KIND of the previously accepted "
+            "object (a circle or slider has new_combo iff its own flag is set, or it is the first accepted object, or the "
+            "object accepted right before it decoded as a spinner - for every line sequence, rejected lines not counting: "
+            "C14_new_combo_by_kind, C14_new_combo_in_sequence, C14_follows_spinner with no exception), repeat cap 9000 and node count, length "
             "rule, non-negative spinner/hold durations (Flocq comparisons), convert_path_str = structural path_spec by "
-            "induction over tokens, sample table; what a rejected line can leave behind (C06 facts). Recorded deviations: "
-            "D3 (residue of a rejected multi-segment slider), D15 (spinner bit remembered from a circle/slider). Tie to the "
+            "induction over tokens, sample table; what a rejected line can leave behind (C06 facts). D3 (residue of a "
+            "rejected multi-segment slider) and D15 (spinner bit remembered from a circle/slider: `0,0,0,9,0` then a circle) "
+            "were found here and repaired (26f4d98, 9dbef29); the formerly failing inputs are Examples and the old "
+            "behaviour is an unlisted oracle failure. Tie to the "
             "code: bit-exact correspondence through HitObjects::parse_hit_objects on field-wise generated line sequences "
             "(exhaustive 256x256 type/sound bytes in the thorough tier) plus an independent reference parser.",
             "§6 C14"),
@@ -297,7 +327,7 @@ def main():
             "enable": "harness/Cargo.toml depends on rosu-map with features=[\"verif-hooks\"]",
             "baseline_off_cmd": "cd /repo && cargo test --workspace --no-fail-fast --offline",
             "source_commits": ["f0db42e"],
-            "fix_commits": ["9215ca2", "26f4d98", "738fe2f", "4262585", "d78b06a", "fe92d4b", "0477e58"],
+            "fix_commits": ["9215ca2", "26f4d98", "738fe2f", "4262585", "d78b06a", "fe92d4b", "0477e58", "af28242", "9dbef29"],
             "add_only": True,
         },
         "engines": [{
